@@ -35,7 +35,7 @@ type c16CPart struct {
 	Meta *string `json:"meta"` // nil = null metadata in the request
 }
 type c16CTopic struct {
-	Topic string      `json:"topic"`
+	Topic string     `json:"topic"`
 	Parts []c16CPart `json:"parts"`
 }
 type c16Step struct {
@@ -59,6 +59,7 @@ func (s c16Step) commitReq() []c16CTopic {
 	m := s.Meta
 	return []c16CTopic{{Topic: s.Topic, Parts: []c16CPart{{Part: s.Part, Off: s.Off, Meta: &m}}}}
 }
+
 type c16Case struct {
 	Etcd  bool      `json:"etcd"`
 	Steps []c16Step `json:"steps"`
